@@ -27,6 +27,8 @@ import itertools
 from lib import vfmt
 
 PROPERTY = 'C16'
+import isolation as _iso
+ISOLATION = [(n, getattr(_iso, n)) for n in ['singleton_pool']]      # instance-isolation obligation (harness/isolation.py)
 COMPONENT = 'singleton'
 QUICK = dict(gen=4000, exh_len=5, exh_prov=4, exh_close=4)
 THOROUGH = dict(gen=40000, exh_len=6, exh_prov=5, exh_close=5)
